@@ -313,7 +313,7 @@ META = {
     'bounds': {
         'quick': 'program shapes: 11 core + 45 seeded random, <= 3 processes, <= 5 timeouts (<= 8 instructions) per program; '
                  'delays unbounded (>= 0) Int / Real / mixed; until-stop at the concrete instant 2; a third of the programs also observed without probe callbacks; '
-                 '2 long programs (8 processes x 3 timeouts, 21 concrete delays with ties, 3 symbolic)',
+                 '2 long programs (8 processes x 3 timeouts, 21 concrete delays with ties, 3 symbolic); programs with un-awaited timeouts and empty conditions; final-clock obligation',
         'thorough': 'program shapes: 11 core + 160 seeded random, <= 3 processes, <= 6 timeouts; delays unbounded',
     },
     'assumptions': ['interrupt causes and event values are concrete tags',
